@@ -681,7 +681,7 @@ def radial_cases(draw):
     kind = draw(st.sampled_from(["grid2d_mask", "grid2d_mask", "grid2d_values", "irregular", "ndarray"]))
     qc = coordinates(-6.0, 6.0).map(_quant)
     case = {"kind": kind, "fns": draw(fn_lists()), "mode": draw(st.sampled_from(MODES)),
-            "cls": draw(st.sampled_from(["VPProfile", "VPProfile", "VPProfileSmall", "VPProfileDyn", "VPProfileDyn"])),
+            "cls": draw(st.sampled_from(["VPProfile", "VPProfileSmall", "VPProfileSmall", "VPProfileDyn", "VPProfileDyn"])),
             "r_dyn": draw(st.one_of(st.sampled_from([1e-6, 0.01, 0.1, 0.3, 1.0, 2.5]), st.floats(1e-6, 3.0))),
             "sph": draw(st.booleans()), "radial_dec": draw(st.booleans()), "angle": draw(ANGLES)}
     if kind.startswith("grid2d"):
@@ -730,7 +730,8 @@ def _check_reloc(ctx, q, s, r_min, key):
         ctx.label("radial:has-outside")
         ctx.check(bool(np.array_equal(s[o], q[o])), key + "/outside-changed",
                   lambda: "coordinates with r>=r_min=%g did not reach the function unchanged: %s -> %s" % (
-                      r_min, q[o][np.any(s[o] != q[o], axis=1)][:3], s[o][np.any(s[o] != q[o], axis=1)][:3]))
+                      r_min, (q[o][np.any(s[o] != q[o], axis=1)][:3]).tolist(),
+                      (s[o][np.any(s[o] != q[o], axis=1)][:3]).tolist()))
     if i.any():
         ctx.label("radial:has-inside")
         want = q[i] * (r_min / r[i])[:, None]
@@ -824,6 +825,9 @@ def _radial(case, ctx, r_min):
         ctx.tie()
         return
     cl = _classify(r0, r_min)
+    for c in ("inside", "centre"):
+        if (cl == c).any():
+            ctx.label("%s+%s" % (case["cls"], c))
     ctx.nt(_nt_fn(fns, 1) and _distinct(coords) >= 3 and ((cl == "inside") | (cl == "centre")).any()
            and (cl == "outside").any())
 
@@ -895,8 +899,8 @@ SUBCHECKS = [
              shards={"quick": 1, "thorough": 2}),
     SubCheck("grid1d", body_grid1d, strategy=grid1d_cases(), examples={"quick": 300, "thorough": 4000},
              shards={"quick": 1, "thorough": 2}),
-    SubCheck("project", body_project, strategy=project_cases(), examples={"quick": 400, "thorough": 6000},
+    SubCheck("project", body_project, strategy=project_cases(), examples={"quick": 600, "thorough": 6000},
              shards={"quick": 2, "thorough": 2}),
-    SubCheck("radial", body_radial, strategy=radial_cases(), examples={"quick": 600, "thorough": 10000},
+    SubCheck("radial", body_radial, strategy=radial_cases(), examples={"quick": 1200, "thorough": 10000},
              shards={"quick": 4, "thorough": 4}),
 ]
